@@ -43,7 +43,7 @@ SlotMatches(u, r) ==
 
 TStep == /\ IsEvent("Step")
          /\ Act(Ev)
-         /\ reply' = Ev.reply
+         /\ (Ev.c # "X" => reply' = Ev.reply)
          /\ {e \in eff' : e.k \in Observable} = SeqSet(Ev.eff)
          /\ Len(Ev.slots) = USERS
          /\ \A u \in Slots : SlotMatches(u, Ev.slots[u + 1])
